@@ -176,7 +176,7 @@ def jobs(tier, seed):
         kw = dict(common)
         kw.update(spec=['poswf_decl.h', 'movegen.h'], post_spec=['poswf.h'], pre_text=EMIT_PRE + 'uint32_t G_F1, G_F2, G_F3, G_CAUSE; _Bool G_FBV; int G_WI;\nstruct Position; int spec_slot_of(const struct Position *p, uint32_t pc, uint32_t sq);\n')
         out.append(Job('leaf/forbidden_squares_' + sn, MTUS, [ff], h, 'h_fb', contracts=dict(SLP, **{ff: c}), nobody=list(SLP), enforce=ff, replace=list(SLP), loopc=lc,
-                       timeout=2400, backend='cadical', route='loop contracts (unbounded) over the four enemy piece lists',
+                       timeout=3600, backend='cadical', tier='thorough', gb=8, route='loop contracts (unbounded) over the four enemy piece lists',
                        note='squares attacked by the enemy with the own king lifted off (union over the enemy piece lists) == "some enemy piece attacks the square", at a ghost square', **kw))
         # ---- checkers
         fc = 'checkers_%d' % side
@@ -197,6 +197,9 @@ def jobs(tier, seed):
     LEAF.update(SLC)
     out += composition_jobs(LEAF)
     out += lemma_jobs(tier, seed)
+    # longest groups first (the runner starts groups in list order)
+    rank = lambda j: 0 if j.name.startswith('compose/generate') else 1 if j.name.startswith(('compose/assembly', 'leaf/forbidden')) else 2 if j.name.startswith('theorem/') else 3
+    out.sort(key=rank)
     return out
 
 
@@ -273,7 +276,7 @@ def composition_jobs(leaf_contracts):
             stubs = [k for k in leafs if '__CPROVER_assigns()' not in cs[k]]     # leaves that write (ghost counter, pin records): stub form, see tools/cxx2c.py stub_text
             out.append(Job('compose/generate_legal_moves_%s/%s' % (sn, cname), MTUS, [fn], h, 'h_gl', contracts=dict(cs, **{fn: c}), nobody=leafs, enforce=fn, replace=leafs, stubs=stubs, loopc=lc, loop_contracts=bool(lc), expect=(['loop_invariant_step'] if lc else []),
                            hooks=HOOKS, spec=['poswf_decl.h', 'movegen.h'], post_spec=['poswf.h'], pre_text=COMPOSE_PRE, force_globals=['PINS'],
-                           unwindset=loops_unwind([(fn, 11)]), timeout=3000, canary=(cname == 'king'), backend='cadical',
+                           unwindset=loops_unwind([(fn, 11)]), timeout=(3000 if cname in QUICK_CLASSES else 9000), canary=(cname == 'king'), gb=5, backend='cadical', tier=('quick' if cname in QUICK_CLASSES else 'thorough'),
                            route='closed-by-complete-unwinding(11): at most 10 pieces of a kind (piece-list capacity, precondition), at most 8 pins',
                            note='generate_legal_moves<%s> emits exactly the moves of the mask-glue predicate spec_alg_core, each once, for every value of the geometric sub-queries the leaf contracts allow - every leaf generator by contract; ghost move class: %s' % (sn, cname)))
     # assembly: for a well-formed Position and its mailbox abstraction, the square sets read off the bitboards are the sets of the board, the true values of
@@ -289,13 +292,14 @@ def composition_jobs(leaf_contracts):
               '  for (int r = 0; r < 8; r++) __CPROVER_assert(T.pin[r] == 64 || (T.pin[r] < 64 && T.pin[r] != A.k && ((A.own >> T.pin[r]) & 1)), "true pinned square: none, or an own piece other than the king");\n'
               '  __CPROVER_assert((T.checkers & ~A.enemy) == 0, "true checkers are enemy pieces");\n'
               '  __CPROVER_assert(A.k < 64, "the king square read from the piece list is on the board");' + CANARY + '}\n')
-    out.append(Job('compose/assembly', MTUS, ['checkers_0'], h, 'h_as', spec=['poswf_decl.h', 'pos.h', 'movegen.h'], post_spec=['poswf.h'], timeout=1800,
+    out.append(Job('compose/assembly', MTUS, ['checkers_0'], h, 'h_as', gb=6, spec=['poswf_decl.h', 'pos.h', 'movegen.h'], post_spec=['poswf.h'], timeout=1800,
                    note='assembly lemma: bitboard sets == mailbox sets for well-formed positions; the true geometric values satisfy the typing facts the composition assumes of its ghosts'))
     return out
 
 
 import os
 COMPOSE_LOOPC = bool(os.environ.get('VERIF_C01_LOOPC'))
+QUICK_CLASSES = ()     # every composition class takes 15-60 min (CaDiCaL): thorough tier; the quick tier runs the leaves, the assembly lemma and the theorem squares
 CCLASS = ['castling', 'king', 'pawn', 'knight', 'bishop', 'rook', 'queen', 'other']
 COMPOSE_PRE = EMIT_PRE + ('#define HAVE_G_AG 1\nuint32_t G_F1, G_F2, G_F3; AlgGhost G_AG; struct Position W_P; uint32_t W_m;\n'
                           'static inline uint32_t sp_kind8(uint32_t pc) { return pc == 0 ? 0u : (pc - 1u) % 6u + 1u; }\n'
@@ -364,6 +368,7 @@ static inline uint32_t alg_class(const SPos *P, uint32_t m)
 { if (spec_move_ccode(m) != 0) return 0; uint32_t k = sp_kind(P->board[spec_move_from(m)]); return k == 6 ? 1 : (k == 1 ? 2 : (k == 2 ? 3 : (k == 3 ? 4 : (k == 4 ? 5 : (k == 5 ? 6 : 7))))); }
 '''
 LCLASS = ['castling', 'king', 'pawn', 'knight', 'bishop', 'rook', 'queen', 'nopiece']
+QUICK_THEOREM = ('castling', 'king', 'knight', 'nopiece')    # 2-8 min each; pawn / bishop / rook / queen take 8-15 min: thorough tier
 
 
 def lemma_jobs(tier, seed):
@@ -371,7 +376,7 @@ def lemma_jobs(tier, seed):
     import random
     rnd = random.Random(seed)
     squares = list(range(64))
-    quick_sq = set(rnd.sample(squares, 4))
+    quick_sq = set(rnd.sample(squares, 1))
     out = []
     for ksq in squares:
         for ci, cname in enumerate(LCLASS):
@@ -381,8 +386,8 @@ def lemma_jobs(tier, seed):
                  '  __CPROVER_assume(sp_king_sq(P.board, P.side) == %d && alg_class(&P, m) == %d);\n' % (ksq, ci) +
                  '  W_S = P; W_m = m;\n'
                  '  __CPROVER_assert(spec_alg_count(&P, m) == (sp_legal(&P, m) ? 1 : 0), "check-mask / pin algorithm predicate == legality under the rules of chess");' + CANARY + '}\n')
-            out.append(Job('theorem/k%02d_%s' % (ksq, cname), tu('types.cpp'), ['from'], h, 'h_l', spec=['pos.h', 'movegen.h'], pre_text=LEMMA_PRE, timeout=3000,
-                           tier='quick' if ksq in quick_sq else 'thorough', canary=(cname == 'king'), replay=REPLAY_GEN,
+            out.append(Job('theorem/k%02d_%s' % (ksq, cname), tu('types.cpp'), ['from'], h, 'h_l', spec=['pos.h', 'movegen.h'], pre_text=LEMMA_PRE, timeout=3000, gb=5,
+                           tier='quick' if (ksq in quick_sq and cname in QUICK_THEOREM) else 'thorough', canary=(cname == 'king'), replay=REPLAY_GEN,
                            note='legality theorem, king of the side to move on square %d, mover class %s (spec-side lemma: no engine code in the query)' % (ksq, cname)))
             out[-1].replay_decl = REPLAY_GEN_DECL
     return out
